@@ -288,7 +288,8 @@ def run_shard(sh):
                 foreign = [(a, b, rng.choice(topo.EDGE_KINDS)) for a in range(n) for b in range(n) if rng.random() < 0.5] or [(0, 0, "direct")]
                 sh.count("same_name_two_module_topologies")
             tp = topo.Topology(n, edges, nested=rng.random() < 0.3 and other is None, flavour=rng.choice(["dataclass", "dataclass", "namedtuple", "typeddict"]),
-                               tag=f"{sh.shard}_{i}", other=other, foreign_edges=foreign, style=rng.choice(["postponed", "quoted"]))
+                               tag=f"{sh.shard}_{i}", other=other, foreign_edges=foreign, style=rng.choice(["postponed", "quoted"]),
+                               wrapped_edges=({e: rng.choice(["newtype", "alias"]) for e in rng.sample(edges, min(len(edges), 2))} if edges and rng.random() < 0.2 else None))
             tp.build()
             try:
                 for label, T in tp.roots():
